@@ -2,11 +2,13 @@
 // (DESIGN.md section 5, C02; properties.jsonl "id":"C02").
 //
 // sub-checks
-//   unconstrained   the 32 registered solvers that are not bundle solvers           (plain flavour)
-//   constrained     linear-penalty, quadratic-penalty, augmented-lagrangian          (plain flavour)
-//   bundle          rqb, fpba1, fpba2 with bundle::max_size >= 5                    (asan flavour)
-//   bundle-small    rqb, fpba1, fpba2 with bundle::max_size in 2..4 (finding F10)   (asan flavour)
-//   memory          sampled memory pass of the non-bundle solvers, small budgets    (asan flavour)
+//   unconstrained   the 32 registered solvers that are not bundle solvers                         (plain flavour)
+//   constrained     linear-penalty, quadratic-penalty, augmented-lagrangian                        (plain flavour)
+//   bundle          rqb, fpba1, fpba2 with bundle::max_size in 5..100                              (plain flavour)
+//   bundle-small    rqb, fpba1, fpba2 with bundle::max_size in 2..4 (where finding F10 overflowed) (plain flavour)
+//   bundle-asan     rqb, fpba1, fpba2, bundle::max_size in 2..100, small instances: the regression
+//                   guard for the heap overflow of finding F10 (fixed in 674a0d8)                  (asan flavour)
+//   memory          sampled memory pass of the non-bundle solvers, small budgets                   (asan flavour)
 // The same oracle runs in all of them; they differ in the generator only.
 #include "c02_support.h"
 
@@ -551,25 +553,30 @@ enum class family_t
     others,
     bundle,
     bundle_small,
+    bundle_asan,
     memory
 };
 
 rc::Gen<ucase_t> gen_ucase(const family_t family)
 {
-    const auto ids      = (family == family_t::bundle || family == family_t::bundle_small) ? bundle_ids() : other_ids();
+    const auto is_bundle_family = family == family_t::bundle || family == family_t::bundle_small || family == family_t::bundle_asan;
+    const auto ids              = is_bundle_family ? bundle_ids() : other_ids();
     // the asan flavour is 10-30x slower than the plain one (Eigen at -O1 with bounds checks): smaller instances there
-    const auto max_dims = family == family_t::others ? 32 : (family == family_t::memory ? 16 : 8);
-    const auto evals_hi = family == family_t::others ? 5000 : (family == family_t::memory ? 600 : 800);
+    const auto max_dims = family == family_t::others ? 32 : (family == family_t::memory ? 16 : (family == family_t::bundle_asan ? 6 : 12));
+    const auto evals_hi = family == family_t::others ? 5000 : (family == family_t::memory ? 600 : (family == family_t::bundle_asan ? 400 : 2500));
+    const auto g_large  = rc::gen::map(rc::gen::pair(gen::range<int>(0, 9), gen::range<int>(5, 100)),
+                                       [](const std::pair<int, int>& p)
+                                       {
+                                           static const int common[] = {5, 6, 8, 10, 20, 100, 100};
+                                           return p.first < 7 ? common[p.first] : p.second;
+                                       });
     const auto g_bundle = family == family_t::bundle_small
                             ? gen::range<int>(2, 4)
                             : (family == family_t::bundle
-                                   ? rc::gen::map(rc::gen::pair(gen::range<int>(0, 9), gen::range<int>(5, 100)),
-                                                  [](const std::pair<int, int>& p)
-                                                  {
-                                                      static const int common[] = {5, 6, 8, 10, 20, 100, 100};
-                                                      return p.first < 7 ? common[p.first] : p.second;
-                                                  })
-                                   : rc::gen::just(0));
+                                   ? g_large
+                                   : (family == family_t::bundle_asan
+                                          ? rc::gen::mapcat(gen::chance(50), [=](bool small) { return small ? gen::range<int>(2, 4) : g_large; })
+                                          : rc::gen::just(0)));
     return rc::gen::mapcat(
         gen_fspec(max_dims, 55),
         [=](const fspec_t& f) -> rc::Gen<ucase_t>
@@ -966,7 +973,14 @@ verdict_t run_and_check(const ucase_t& c, const std::vector<std::vector<double>>
     }
     catch (const std::exception& e)
     {
-        return verdict_t::violation("C02/exception/" + c.solver, cat(e.what(), " ", applied.description));
+        const std::string what = e.what();
+        if (constrained && what.find("solver::epsilon") != std::string::npos && what.find("out of domain") != std::string::npos)
+        {
+            // mechanism of finding F14: solver_t::more_precise multiplies the inner solver's epsilon by epsilonK after every
+            // outer iteration; with a small epsilonK the product underflows to 0, which the parameter rejects by throwing
+            return verdict_t::known("C02/exception/constrained/inner-epsilon-underflow", cat(what, " ", applied.description));
+        }
+        return verdict_t::violation("C02/exception/" + c.solver, cat(what, " ", applied.description));
     }
     function.limit(0);
     nano::verif::rng_state().store(0);
@@ -1155,6 +1169,7 @@ int main(int argc, char** argv)
     suite.add<ccase_t>("constrained", gen_ccase, check_ccase, 0.15);
     suite.add<ucase_t>("bundle", [] { return gen_ucase(family_t::bundle); }, check_ucase, 0.3);
     suite.add<ucase_t>("bundle-small", [] { return gen_ucase(family_t::bundle_small); }, check_ucase, 0.1);
+    suite.add<ucase_t>("bundle-asan", [] { return gen_ucase(family_t::bundle_asan); }, check_ucase, 0.05);
     suite.add<ucase_t>("memory", [] { return gen_ucase(family_t::memory); }, check_ucase, 0.3);
     return suite.main(argc, argv);
 }
